@@ -220,7 +220,12 @@ func drawMux(ch *Chooser, tier string) []RouteSpec {
 			rs = append(rs, RouteSpec{Kind: []string{"extended", "extended", "bind", "add"}[ch.Choose(4)], ExtName: muxExt[ch.Choose(len(muxExt))], Label: fmt.Sprintf("r%d", len(rs))})
 		}
 		for i, k := len(rs)-1, 1+ch.Choose(2); i >= 0 && k > 0; i, k = i-1, k-1 {
-			rs[i].Late = true
+			rs[i].Late = 1
+		}
+		if ch.Choose(2) == 1 {
+			// a second task registers, at the same time, a route that shares
+			// no request with any other
+			rs = append(rs, RouteSpec{Kind: "extended", ExtName: "1.2.3.4.9", Label: fmt.Sprintf("r%d", len(rs)), Late: 2})
 		}
 	}
 	// default / unbind routes, possibly registered twice (the later one wins)
@@ -247,7 +252,7 @@ func muxRequest(g *Gen) *ReqRec {
 		r.Scope = int64(ch.Choose(3))
 	case 3:
 		r.Op = "extended"
-		r.ExtName = []string{"1.3.6.1.4.1.4203.1.11.3", "1.3.6.1.1.8", "1.2.3.4.5", "1.3.6.1.4.1.4203.1.11.1", "1.3.6.1.1.8 "}[ch.Choose(5)]
+		r.ExtName = []string{"1.3.6.1.4.1.4203.1.11.3", "1.3.6.1.1.8", "1.2.3.4.5", "1.3.6.1.4.1.4203.1.11.1", "1.3.6.1.1.8 ", "1.2.3.4.9"}[ch.Choose(6)]
 	case 4:
 		r.Op, r.DN, r.Password = "bind", "cn=alice", "pw"
 	case 5:
@@ -336,6 +341,7 @@ func DrawCore(prop, tier string, ch *Chooser, lean bool, s *Sim) *Core {
 		cfg.StopAt = ch.Choose(120)
 		cfg.SecondStop = ch.Choose(3) == 2
 	}
+	cfg.SecondServer = prop == "C09" && ch.Choose(4) == 3
 	cfg.PassiveEnd = p.passiveEnd || (cfg.StopMode == 1 && p.passivePct > 0 && ch.Chance(p.passivePct))
 	cfg.HoldAll = p.holdAll
 	cfg.ReadyPoll = p.readyPoll
@@ -490,7 +496,7 @@ func DrawCore(prop, tier string, ch *Chooser, lean bool, s *Sim) *Core {
 				q.Script.Stall, q.Script.Panic = 2, false // all in flight together
 			}
 			if i == 0 && storm && rec.Supported() && !q.Inline && !neg {
-				q.Script.Panic, q.Script.Resps = true, nil
+				q.Script.Panic, q.Script.Resps, q.Script.InWrite = true, nil, ch.Choose(3) == 2
 			}
 			if cl.Eager && j < startTLSAt {
 				q.Script.Stall = 1 // still in flight when the upgrade happens
@@ -690,6 +696,7 @@ func (c *Core) drawScript(q *Req, p profile, ch *Chooser, g *Gen) {
 	}
 	if ch.Chance(p.panicPct) {
 		sc.Panic = true
+		sc.InWrite = ch.Choose(3) == 2
 		return
 	}
 	if op == "search" {
